@@ -62,8 +62,8 @@ def execute(ch, cfg):
         opts = [d, d / 2, d + f / 4, d + 2 * f]
         c = ch.choose(4, lambda c: "sleep(%r) returns after %r" % (d, opts[c]))
         clock["wall"] += opts[c]
-    saved = (rt.monotonic, rt.sleep, time.monotonic, time.sleep)
-    rt.monotonic, rt.sleep, time.monotonic, time.sleep = mono, sleep, mono, sleep
+    saved = (rt.monotonic, rt.sleep, time.monotonic, time.sleep, time.perf_counter, time.time)
+    rt.monotonic, rt.sleep, time.monotonic, time.sleep, time.perf_counter, time.time = mono, sleep, mono, sleep, mono, mono
     bad = None
     raised = None
     try:
@@ -118,7 +118,7 @@ def execute(ch, cfg):
             if bad:
                 break
     finally:
-        rt.monotonic, rt.sleep, time.monotonic, time.sleep = saved
+        rt.monotonic, rt.sleep, time.monotonic, time.sleep, time.perf_counter, time.time = saved
     res.digest = (tuple(ch.choices), tuple(x[2:] for x in k.log), raised)
     res.nontrivial = ch.nz > 0 or near
     if bad:
